@@ -1,6 +1,6 @@
 (* C08 — the lemmas Property.v refers to, proved in QBase / Lemmas1 (rectangle, ellipse) / Lemmas2 (translation) /
-   Lemmas3 (rotation, polygon representation, polygon pre-filter, verdict soundness). *)
-From GV Require Export C08.Model C08.QBase C08.Lemmas1 C08.Lemmas2 C08.Lemmas3.
+   Lemmas3 (rotation, polygon representation, polygon pre-filter, verdict soundness) / Lemmas4 (incremental rotation rotate_by). *)
+From GV Require Export C08.Model C08.QBase C08.Lemmas1 C08.Lemmas2 C08.Lemmas3 C08.Lemmas4 C08.GenLink.
 
 Definition rect_contains_geometric := Lemmas1.rect_contains_geometric.
 Definition rect_branches_agree := Lemmas1.rect_branches_agree.
@@ -24,3 +24,14 @@ Definition copy_identity := Lemmas3.copy_identity.
 Definition copy_then_ops := Lemmas3.copy_then_ops.
 Definition restore_region := Lemmas3.restore_region.
 Definition restore_then_ops := Lemmas3.restore_then_ops.
+Definition rotate_by_is_rotate_to := Lemmas4.rotate_by_is_rotate_to.
+Definition rotate_by_angle_sum := Lemmas4.rotate_by_angle_sum.
+Definition ang_sum_total := Lemmas4.ang_sum_total.
+Definition ang_sum_unit := Lemmas4.ang_sum_unit.
+Definition rotate_by_collapse := Lemmas4.rotate_by_collapse.
+Definition rotate_by_polygon := Lemmas4.rotate_by_polygon.
+Definition gen_rotate_by := GenLink.gen_rotate_by.
+Definition gen_rotate_by_step := GenLink.gen_rotate_by_step.
+Definition gen_rotate_to_rect_ellipse := GenLink.gen_rotate_to_rect_ellipse.
+Definition gen_rotate_to_polygon := GenLink.gen_rotate_to_polygon.
+Definition gen_polygon_skip_test := GenLink.gen_polygon_skip_test.
